@@ -4,6 +4,8 @@ import (
 	"fmt"
 	"os"
 	"sort"
+	"sync/atomic"
+	"time"
 )
 
 // Engine is what a simulation engine offers to the common worker loop.
@@ -29,6 +31,7 @@ type KnownHit struct {
 // a violation; 11 trouble.  Anything else is a process death.
 func WorkerMain(env *Env, eng Engine) int {
 	env.J = OpenJournal(env.Journal)
+	startWatchdog(env)
 	switch env.Mode {
 	case "replay", "minimise":
 		c, err := LoadCase(env.CasePath)
@@ -64,6 +67,7 @@ func WorkerMain(env *Env, eng Engine) int {
 			res.Notes = append(res.Notes, fmt.Sprintf("wall budget reached at run %d", run))
 			break
 		}
+		Tick()
 		v := eng.Run(env, run, res)
 		res.Runs++
 		if v == nil {
@@ -206,4 +210,43 @@ func MinimiseTape(tape []uint32, test func([]uint32) bool) []uint32 {
 		tape = tape[:len(tape)-1]
 	}
 	return tape
+}
+
+// ---- hang watchdog ----------------------------------------------------------
+//
+// The engines call Tick at every simulated step.  A step that takes more than
+// hangLimit of real time means the code under test spins or blocks outside
+// everything the simulator controls: the worker then exits with status 12 and
+// the driver reports the hang (with the journal's last command) instead of
+// waiting for its own watchdog.
+
+// Watchdog is set by engines whose every simulated step calls Tick (E1).
+var Watchdog bool
+
+var ticks atomic.Int64
+
+// Tick records progress.  (A counter, not a clock reading: inside a synctest
+// bubble time.Now is the simulated clock.)
+func Tick() { ticks.Add(1) }
+
+const hangLimit = 90 * time.Second
+
+func startWatchdog(env *Env) {
+	if !Watchdog || os.Getenv("VERIF_WATCHDOG") == "0" {
+		return
+	}
+	go func() {
+		last, since := ticks.Load(), time.Now()
+		for {
+			time.Sleep(2 * time.Second)
+			if cur := ticks.Load(); cur != last {
+				last, since = cur, time.Now()
+				continue
+			}
+			if time.Since(since) > hangLimit {
+				fmt.Fprintf(os.Stderr, "WATCHDOG: no simulated step completed for %v: the code under test hangs\n", hangLimit)
+				os.Exit(12)
+			}
+		}
+	}()
 }
